@@ -1383,6 +1383,7 @@ def opOK (s : Sys) : Op → Bool
     decide (b.num < 2^32) && b.bridges.all (fun e => e.block == b.num) && b.claims.all (fun e => e.block == b.num) &&
     (decide (s.cfg.start < b.num) || b.bridges.isEmpty) &&
     (b.bridges.map (·.id) == List.range' (allBridges s.l2).length b.bridges.length)
+  | .forge => false      -- records that contradict the Agglayer's are outside the histories the theorems quantify over
   | _ => true
 
 def opsOK (size : Params → Nat) (s : Sys) : List Op → Bool
@@ -1465,6 +1466,7 @@ theorem step_inv (size : Params → Nat) (s : Sys) (hi : Inv s) (op : Op) (hop :
     · intro r hr; simp [step] at hr
     · intro _; exact Or.inl rfl
   | restart => exact (restart_inv s hi).of_eq rfl rfl rfl rfl rfl
+  | forge => simp [opOK] at hop
 
 theorem run_inv (size : Params → Nat) (ops : List Op) : ∀ (s : Sys), Inv s → opsOK size s ops = true →
     Inv (run size s ops) := by
